@@ -15,19 +15,20 @@ Proof. reflexivity. Qed.
 Lemma gen_less_index_ok a b : gen_less_index a b = less_index a b.
 Proof. reflexivity. Qed.
 
-(* Updates.UpTo *)
-Lemma gen_up_to_acc t us : forall acc,
-  fold_left (fun st v_u => if t <? u_ts v_u then st else (st ++ [v_u])%list) us acc
-  = (acc ++ up_to t us)%list.
-Proof.
-  unfold up_to. induction us as [|u r IH]; intro acc; cbn [fold_left filter].
-  - rewrite app_nil_r. reflexivity.
-  - destruct (t <? u_ts u); cbn [negb]; rewrite IH; [reflexivity|].
-    rewrite <- app_assoc. reflexivity.
-Qed.
-
+(* Updates.UpTo (the script does not depend on how the loop body spells the test) *)
 Lemma gen_up_to_ok us t : gen_up_to us t = up_to t us.
-Proof. unfold gen_up_to. cbv zeta. rewrite (gen_up_to_acc t us []). reflexivity. Qed.
+Proof.
+  unfold gen_up_to, up_to. cbv zeta.
+  match goal with
+  | |- fold_left ?F us ?a = _ =>
+      assert (H : forall acc, fold_left F us acc
+                              = (acc ++ filter (fun u => negb (t <? u_ts u)) us)%list)
+  end.
+  { induction us as [|u r IH]; intro acc; cbn [fold_left filter].
+    - rewrite app_nil_r. reflexivity.
+    - rewrite IH. cbv beta zeta. destruct (t <? u_ts u); cbn [negb]; rewrite <- ?app_assoc; reflexivity. }
+  exact (H []).
+Qed.
 
 (* Way.applyUpdate, Relation.applyUpdate *)
 Lemma update_nth_twice {A} (f g : A -> A) (l : list A) : forall n,
